@@ -530,10 +530,15 @@ def worker(case, led):
         rep = {"model": name, "nsites": n, "method": method, "dt": dt, "seed": seed, "H(t)": "(1 + 0.5 t/dt) H"}
         try:
             m = a.copy()
-            Dn.set_evolve(m, method, M=64)
+            if "vmf" in method:
+                # the variational schemes hand H(t) to the ODE solver as an explicitly time-dependent right-hand side; at full bond dimension the only error is
+                # the solver's (tight tolerances: the bound is a few hundred times rtol)
+                Dn.set_evolve(m, method, M=64, ivp_rtol=1e-8, ivp_atol=1e-10)
+            else:
+                Dn.set_evolve(m, method, M=64)
             r = m.evolve(mpo_t, dt)
             err = np.linalg.norm(S.dense(r) - v)
-            bnd = (1.5 * 0.3) ** 5 * 2 * np.linalg.norm(v) + 1e-6
+            bnd = (1.5 * 0.3) ** 5 * 2 * np.linalg.norm(v) + 1e-6 if "vmf" not in method else 3e-6 * np.linalg.norm(v)
             led.check(err <= bnd, f"post:Mps.evolve[{method}]:time_dependent_hamiltonian", f"Mps._evolve_{method}", f"error {err:.3e} > {bnd:.3e}", key, {"method": method}, rep)
         except Exception as e:
             led.check(False, f"post:Mps.evolve[{method}]:total", f"Mps._evolve_{method}", f"time-dependent run raised {type(e).__name__}: {e}", key, {"method": method, "timedep": True}, rep)
@@ -575,7 +580,7 @@ def check(run):
             cases.append(("history", name, n, s, run.tier))
             for method in ("prop_and_compress", "tdvp_ps", "tdvp_mu_vmf"):
                 cases.append(("mpdm", name, n, method, s, run.tier))
-            for method in ("prop_and_compress_tdrk4", "prop_and_compress_tdrk"):
+            for method in ("prop_and_compress_tdrk4", "prop_and_compress_tdrk", "tdvp_mu_vmf"):
                 cases.append(("timedep", name, n, method, s, run.tier))
             for method in ("tdvp_vmf", "tdvp_mu_vmf"):
                 cases.append(("vmf_rhs", name, n, method, s, run.tier))
